@@ -394,6 +394,27 @@ pub fn run(ctx: &Ctx) -> Report {
         });
         rep.absorb(sub, accs);
     }
+    if ctx.want("token-sequences") {
+        // what one token leaves behind in the parser (scratch space, look-ahead) must not reach
+        // the text of the next (seed C17-g1: a symbol scanner that forgets to clear the scratch
+        // space after an Emacs unibyte string, on the unchecked str path)
+        const FILLERS: [&str; 20] = ["\"\\351t\\351\"", "\"\\xe9t\\xe9\"", "\"\\377\"", "\"\\200abc\"", "\"a\\x41;\u{e9}\"", "\"\u{e9}\"", "\"\\n\"", "?\\351", "?\u{e9}", "#\\xe9", "#\\\u{e9}", "12.5e3", "-7", "#:kw", ":kw", "kw:", "sym", "\u{3bb}", "#u8(233 116)", "\"\\\n x\""];
+        const SECONDS: [&str; 22] = ["-\u{3bb}", "+.a", "+\u{e9}", "-.\u{3bb}", ".\u{3bb}", "..", "\u{3bb}", "a", "-", "+", "...", "#:\u{3bb}", ":\u{3bb}", "\u{3bb}:", "\"\u{e9}\"", "\"\\xe9;\"", "\"\\351\"", "1+", "-1x", "#\\\u{3bb}", "?\u{3bb}", "#\"\u{3bb}\""];
+        const FRAMES: [(&str, &str, &str); 6] = [("(", " ", ")"), ("", " ", ""), ("#(", " ", ")"), ("(", " . ", ")"), ("(x ", "\n", " y)"), ("[", " ", "]")];
+        let total = (FILLERS.len() * SECONDS.len() * FRAMES.len() * 2) as u64;
+        let sub = Sub::new("token-sequences", "a first token that leaves bytes behind (Emacs unibyte strings with high octets, escaped strings, characters, numbers, keywords, a byte vector) directly followed by a second token of every symbol / string / character scanner path (sign + non-ASCII, sign + dot, dot-initial, non-ASCII-initial, keywords of the three spellings, strings with escapes), in six frames (list, top-level run, vector, dotted pair, inner position, brackets) x {default, elisp}; slice, 1-byte reader, str, and the whole-run loops: every str of every value is well-formed", &format!("{} x {} x {} x 2 = {} inputs", FILLERS.len(), SECONDS.len(), FRAMES.len(), total));
+        let accs = par_ranks(total, |rank, acc| {
+            let r = rank as usize;
+            let elisp = r % 2 == 1;
+            let fr = FRAMES[(r / 2) % FRAMES.len()];
+            let s2 = SECONDS[(r / 2 / FRAMES.len()) % SECONDS.len()];
+            let f1 = FILLERS[r / 2 / FRAMES.len() / SECONDS.len()];
+            let input = format!("{}{}{}{}{}", fr.0, f1, fr.1, s2, fr.2).into_bytes();
+            acc.sample(rank, || format!("{:?}", show_bytes(&input)));
+            check_input(acc, "token-sequences", rank, &input, elisp, "token-sequence", &[], false);
+        });
+        rep.absorb(sub, accs);
+    }
     if ctx.want("text-units") {
         let k = if thorough { 6 } else { 5 };
         let n = count_upto(9, k);
